@@ -299,14 +299,163 @@ pub fn arb_case() -> impl Strategy<Value = Case> {
 pub fn run(r: &Run) {
     r.set_rule(RULE);
     r.assume("the stored path is what the decoder / API produce (attributes in type order, ORIGIN and AS_PATH present); locally originated and kernel routes carry no MED, ORIGINATOR_ID or CLUSTER_LIST; export policy is absent (its actions are C14's subject)");
-    r.assume("inbound ORIGINATOR_ID / CLUSTER_LIST loop checks live in PeerSession::rx_update and are not reached here; is_as_loop is checked on its own");
+    r.assume("export-matrix / as-loop are function level; the inbound loop checks of the session (is_as_loop in the read loop, ORIGINATOR_ID / CLUSTER_LIST in rx_update) are reached by inbound-session over a real session");
     r.prop("export-matrix", r.tier.pick(300_000, 6_000_000), arb_case, check);
     r.prop("as-loop", r.tier.pick(20_000, 500_000), || (arb_wire_attrs(), prop_oneof![Just(65000u32), Just(65002u32), Just(70000u32), Just(23456u32)], prop_oneof![Just(0u32), Just(65002u32), Just(65000u32), Just(70001u32)]).prop_map(|(attrs, local_asn, confed)| LoopCase { attrs, local_asn, confed }), check_loop);
+    r.assume(INBOUND_RULE);
+    r.prop("inbound-session", r.tier.pick(3_000, 100_000), arb_inbound, check_inbound);
 }
 
 pub fn replay(sub: &str, case: &Value) -> Result<CheckResult, String> {
     match sub {
         "as-loop" => Ok(check_loop(&decode_case(case)?)),
+        "inbound-session" => Ok(check_inbound(&decode_case(case)?)),
         _ => Ok(check(&decode_case(case)?)),
     }
+}
+
+// ---------------------------------------------------------------------------
+// inbound side, at session level: UPDATEs sent by a wire-level peer over a real session
+// (run_select's is_as_loop filter, rx_msg, rx_update's ORIGINATOR_ID / CLUSTER_LIST checks)
+// ---------------------------------------------------------------------------
+
+pub const INBOUND_RULE: &str = "inbound-session: a wire-level peer of every kind (eBGP, route-server client, iBGP, iBGP route-reflector client, confederation member) with or without a confederation and a configured cluster id announces routes whose AS_PATH (sequence / set / confederation segments where the session allows them) \
+may contain the local AS or the confederation id (towards peers outside a confederation only the confederation id, the AS they know the speaker by, counts), whose ORIGINATOR_ID may be the local router-id and whose CLUSTER_LIST may contain the local cluster id. After each UPDATE the route is in the peer's Adj-RIB-In iff it loops in none of these ways (ORIGINATOR_ID / CLUSTER_LIST only count where the session may carry them: not from eBGP / route-server-client peers, whose copies are dropped on receipt; CLUSTER_LIST only on iBGP sessions). \
+non-trivial := a looped and a loop-free route in one case";
+
+#[derive(Clone, Debug, Serialize, Deserialize)]
+pub struct InRoute {
+    pub prefix: u8,
+    /// (segment type 1..=4, AS numbers)
+    pub path: Vec<(u8, Vec<u32>)>,
+    /// 0 = none, 1 = the local router-id, 2 = another identifier
+    pub originator: u8,
+    /// entries: 0 = the local cluster id, 1 = the local router-id, 2.. = other identifiers
+    pub clusters: Vec<u8>,
+}
+
+#[derive(Clone, Debug, Serialize, Deserialize)]
+pub struct InboundCase {
+    /// 0 eBGP, 1 route-server client, 2 iBGP, 3 iBGP route-reflector client, 4 confederation member
+    pub peer: u8,
+    pub confed: bool,
+    pub cluster: bool,
+    pub routes: Vec<InRoute>,
+}
+
+const IN_LOCAL_AS: u32 = 65000;
+const IN_CONFED_ID: u32 = 64512;
+const IN_CLUSTER: u32 = 0x0909_0909;
+const IN_ROUTER_ID: u32 = 0x0100_0001;
+
+pub fn check_inbound(c: &InboundCase) -> CheckResult {
+    let rt = tokio::runtime::Builder::new_current_thread().enable_all().event_interval(1).build().map_err(|e| Failure::new("harness", e.to_string()))?;
+    rt.block_on(inbound(c))
+}
+
+async fn inbound(c: &InboundCase) -> CheckResult {
+    use crate::event::verif::{AdmitRig, NeighborCfg, adj_in};
+    use crate::props::wirepeer::{WirePeer, fresh_loopback};
+    use packet::bgp::{self, Capability, Message, PeerCodec, Update};
+    let kind = c.peer % 5;
+    // a confederation member needs a confederation; within one, iBGP peers may carry confederation segments
+    let confed = c.confed || kind == 4;
+    let peer_as: u32 = match kind {
+        0 | 1 => 65100,
+        2 | 3 => IN_LOCAL_AS,
+        _ => 65010,
+    };
+    let src = fresh_loopback();
+    let rig = std::rc::Rc::new(AdmitRig::new(IN_LOCAL_AS, if confed { Some((IN_CONFED_ID, vec![IN_LOCAL_AS, 65010])) } else { None }).await.map_err(|e| Failure::new("harness", e))?);
+    let cfg = NeighborCfg {
+        addr: src,
+        remote_asn: peer_as,
+        local_asn: 0,
+        rs_client: kind == 1,
+        rr_client: kind == 3,
+        cluster_id: if c.cluster { Some(Ipv4Addr::from(IN_CLUSTER)) } else { None },
+        admin_down: false,
+        holdtime: 90,
+        families: vec![(Family::IPV4, 0)],
+        prefix_limit: None,
+        gr: None,
+        llgr: None,
+    };
+    if !rig.add_neighbor(&cfg).await {
+        return Err(Failure::new("harness", format!("add_peer refuses {cfg:?}")));
+    }
+    let mut p = WirePeer::on(rig.clone(), src);
+    p.connect().await?;
+    let caps = vec![Capability::MultiProtocol(Family::IPV4), Capability::FourOctetAsNumber(peer_as)];
+    if !p.establish(peer_as, 0, 0x0a00_0009, caps.clone()).await? {
+        return Err(Failure::new("harness", "the session did not establish".to_string()));
+    }
+    let mut codec = PeerCodec::negotiate(&caps, &caps);
+    let external = kind <= 1;
+    let ibgp = kind == 2 || kind == 3;
+    // the cluster id of an iBGP session: the configured one, else the router-id
+    let local_cluster = if c.cluster { IN_CLUSTER } else { IN_ROUTER_ID };
+    let mut info = CaseInfo::trivial();
+    let (mut saw_loop, mut saw_clean) = (false, false);
+    for (i, r) in c.routes.iter().enumerate() {
+        // segment types the session may carry: confederation segments only inside a confederation
+        let path: Vec<(u8, Vec<u32>)> = r.path.iter().map(|(t, a)| (if (*t == SEG_CONFED_SEQ || *t == SEG_CONFED_SET) && (external || !confed) { SEG_SEQ } else { *t }, a.clone())).filter(|(_, a)| !a.is_empty()).collect();
+        let originator = match r.originator % 3 {
+            0 => None,
+            1 => Some(IN_ROUTER_ID),
+            _ => Some(0x0a0a_0a0a),
+        };
+        let clusters: Vec<u32> = r.clusters.iter().map(|k| match k % 4 {
+            0 => local_cluster,
+            1 => if c.cluster { IN_ROUTER_ID } else { 0x0b0b_0b0b },
+            k => 0x0c0c_0c00 + k as u32,
+        }).collect();
+        let spec = AttrSpec {
+            origin: Some(0),
+            as_path: Some(path.iter().map(|(t, a)| Seg { t: *t, n: a.len() as u16, base: 0, asns: a.clone() }).collect()),
+            local_pref: if external { None } else { Some(100) },
+            originator_id: originator,
+            cluster_list: clusters.clone(),
+            ..Default::default()
+        };
+        let net = v4(10, 80 + r.prefix % 6, i as u8, 0, 24);
+        let msg = Message::Update(Update::Reach { family: Family::IPV4, entries: vec![bgp::PathNlri { path_id: 0, nlri: net.clone() }], nexthop: Some(Nexthop::V4(Ipv4Addr::new(192, 0, 2, 7))), attr: Arc::new(spec.build()) });
+        p.send_msg(&mut codec, &msg).await?;
+        if p.is_closed() {
+            return Err(Failure::new("harness", format!("the session was reset by route #{i} ({spec:?})")));
+        }
+        let all: Vec<u32> = path.iter().flat_map(|(_, a)| a.iter().copied()).collect();
+        // towards peers outside the confederation the speaker is the confederation id, and a
+        // member AS number seen in their paths is somebody else's (RFC 5065): not a loop
+        let loop_as = if confed && external { all.contains(&IN_CONFED_ID) } else { all.contains(&IN_LOCAL_AS) || (confed && all.contains(&IN_CONFED_ID)) };
+        let loop_orig = !external && originator == Some(IN_ROUTER_ID);
+        let loop_cluster = ibgp && clusters.contains(&local_cluster);
+        let looped = loop_as || loop_orig || loop_cluster;
+        let held = adj_in(&rig.tables, src, &[Family::IPV4]).iter().any(|(_, n, _)| *n == format!("{net:?}"));
+        if held == looped {
+            let why = if loop_as { "as-path" } else if loop_orig { "originator-id" } else if loop_cluster { "cluster-list" } else { "none" };
+            return Err(Failure::new("inbound-loop", format!("route #{i} {net} from a {} peer (confederation: {confed}, cluster id configured: {}): AS_PATH {path:?}, ORIGINATOR_ID {originator:?}, CLUSTER_LIST {clusters:x?}; loops by {why}; in the Adj-RIB-In: {held}", ["eBGP", "route-server-client", "iBGP", "iBGP rr-client", "confederation-member"][kind as usize], c.cluster))
+                .with("peer", kind)
+                .with("why", why)
+                .with("held", held));
+        }
+        saw_loop |= looped;
+        saw_clean |= !looped;
+        if looped {
+            info.classes.push(match (loop_as, loop_orig) {
+                (true, _) => "inbound/as-path-loop",
+                (_, true) => "inbound/originator-loop",
+                _ => "inbound/cluster-loop",
+            });
+        }
+    }
+    info.nontrivial = saw_loop && saw_clean;
+    Ok(info)
+}
+
+pub fn arb_inbound() -> impl Strategy<Value = InboundCase> {
+    let asn = prop_oneof![3 => Just(IN_LOCAL_AS), 2 => Just(IN_CONFED_ID), 2 => Just(65010u32), 6 => 65100u32..65110, 1 => Just(4_200_000_000u32)];
+    let seg = (prop_oneof![6 => Just(SEG_SEQ), 2 => Just(SEG_SET), 2 => Just(SEG_CONFED_SEQ), 1 => Just(SEG_CONFED_SET)], proptest::collection::vec(asn, 1..4));
+    let route = (0u8..6, proptest::collection::vec(seg, 1..4), prop_oneof![4 => Just(0u8), 2 => Just(1u8), 2 => Just(2u8)], proptest::collection::vec(0u8..6, 0..3)).prop_map(|(prefix, path, originator, clusters)| InRoute { prefix, path, originator, clusters });
+    (0u8..5, any::<bool>(), any::<bool>(), proptest::collection::vec(route, 1..8)).prop_map(|(peer, confed, cluster, routes)| InboundCase { peer, confed, cluster, routes })
 }
